@@ -519,6 +519,23 @@ Fixpoint ops_env (ops : list op) (st : disk * rfilter) : bool :=
   | o :: r => op_env (fst st) o && ops_env r (step st o)
   end.
 
+(* no Revert removes a block that the persisted running-filter snapshot already covers (the snapshot
+   is never invalidated by juno: registered finding crash:stale-filter-snapshot) *)
+Definition op_fresh (d : disk) (o : op) : bool :=
+  match o with
+  | Revert => match d_height d, d_snap d with
+              | Some h, Some s => rf_next s <=? h
+              | _, _ => true
+              end
+  | _ => true
+  end.
+
+Fixpoint ops_fresh (ops : list op) (st : disk * rfilter) : bool :=
+  match ops with
+  | [] => true
+  | o :: r => op_fresh (fst st) o && ops_fresh r (step st o)
+  end.
+
 Definition is_restart (o : op) : bool := match o with Restart _ => true | _ => false end.
 
 (* the filter can take block h+1 *)
